@@ -130,7 +130,7 @@ def run(chk, tier, overlays=()):
     for fn, e, kind, st, det in frame.scan(P, lambda f: True):
         if fn.name.split("::")[-1] not in FUNCS:
             continue
-        key = "%s:%s:%s" % (fn.name.split("::")[-1], kind, (e.get("var") if kind in ("decl", "vecdecl", "diffdecl") else sx_str(e["x"])[:50]))
+        key = "%s:%s:%s" % (fn.name.split("::")[-1], kind, (e.get("var") if kind in ("decl", "vecdecl", "diffdecl", "aliasdecl") else sx_str(e["x"])[:50]))
         site = "%s:%d" % (fn.file, e["line"])
         if st == "ok":
             n_ok += 1
